@@ -12,14 +12,19 @@ def run(tier, seed):
     kill_plans = core_check.reentrant_plans(['step', 'L_running', 'L_waiting', 'L_paused', 'L_played', 'L_output'], [('kill', 'k2')])
     if tier == 'quick':
         mc = [dict(name='C04_env', progs=C.fam(C.ALL), plans=[[]], alphabet=alpha, k=3, invariants=INV),
-              dict(name='C04_reentrant', progs=C.fam(C.ALL), plans=kill_plans, alphabet=alpha, k=1, invariants=INV)]
+              dict(name='C04_reentrant', progs=C.fam(C.ALL), plans=kill_plans, alphabet=alpha, k=1, invariants=INV),
+              # nothing drives the process any more (its stepping task was cancelled at the pause gate): it can still be killed
+              dict(name='C04_task_cancelled', progs=C.fam(C.SMALL), plans=[[]], alphabet=['taskcancel', 'pause', 'play', 'kill', 'resume'], k=4, invariants=INV)]
         rp = [dict(name='C04_env', progs=C.fam(['P03', 'P04', 'P05', 'P09', 'P10']), plans=[[]], alphabet=alpha, k=3),
-              dict(name='C04_reentrant', progs=C.fam(C.SMALL), plans=kill_plans, alphabet=alpha, k=1)]
+              dict(name='C04_reentrant', progs=C.fam(C.SMALL), plans=kill_plans, alphabet=alpha, k=1),
+              dict(name='C04_task_cancelled', progs=C.fam(C.SMALL), plans=[[]], alphabet=['taskcancel', 'pause', 'play', 'kill', 'resume'], k=4)]
     else:
         mc = [dict(name='C04_env', progs=C.fam(C.ALL), plans=[[]], alphabet=alpha, k=5, invariants=INV),
-              dict(name='C04_reentrant', progs=C.fam(C.ALL), plans=kill_plans, alphabet=alpha, k=3, invariants=INV)]
+              dict(name='C04_reentrant', progs=C.fam(C.ALL), plans=kill_plans, alphabet=alpha, k=3, invariants=INV),
+              dict(name='C04_task_cancelled', progs=C.fam(C.ALL), plans=[[]], alphabet=['taskcancel', 'pause', 'play', 'kill', 'resume'], k=5, invariants=INV)]
         rp = [dict(name='C04_env', progs=C.fam(C.ALL), plans=[[]], alphabet=alpha, k=3),
-              dict(name='C04_reentrant', progs=C.fam(C.ALL), plans=kill_plans, alphabet=alpha, k=2)]
+              dict(name='C04_reentrant', progs=C.fam(C.ALL), plans=kill_plans, alphabet=alpha, k=2),
+              dict(name='C04_task_cancelled', progs=C.fam(C.ALL), plans=[[]], alphabet=['taskcancel', 'pause', 'play', 'kill', 'resume'], k=4)]
     return core_check.run_check(
         PID, tier, seed, mc, rp,
         level_text='TLC exhaustive + replay of every behaviour of the dumped state graphs into the real Process',
